@@ -137,6 +137,9 @@ type cleanResult struct {
 	reads    []string
 	exit     int
 	output   string
+	// selfCheck: non-empty when the from-scratch build itself is wrong by an absolute oracle
+	// (the differential oracle is blind to a defect that also affects the from-scratch build)
+	selfCheck string
 }
 
 type histEngine struct {
@@ -152,6 +155,9 @@ type histEngine struct {
 	builds   int64
 	mu       sync.Mutex
 	lockstep bool
+	// prebuilt: every history starts with `grog build <flags[0]>`, which is not counted in maxOps
+	// (the search starts from the state after a first build instead of the empty workspace)
+	prebuilt bool
 }
 
 var preOpNames = []string{"delete-lib-output", "delete-lib-output-parent-dir", "modify-lib-output", "truncate-gen-output", "delete-dist-dir", "replace-dist-dir-by-file", "add-stale-file-to-dist", "chmod-minus-x-tool"}
@@ -224,6 +230,22 @@ func (e *histEngine) cleanFor(ws wsState, f buildFlags) *cleanResult {
 	for _, l := range rr.Trace {
 		if strings.HasPrefix(l, "read ") {
 			res.reads = append(res.reads, l)
+		}
+	}
+	if rr.Exit == 0 && src.Target("//b:app") != nil && src.Target("//a:lib") != nil {
+		// absolute oracle: app's output embeds its own input and the bytes of lib's output
+		libTxt, err1 := os.ReadFile(filepath.Join(box.WS(), "a/out/lib.txt"))
+		appIn, _ := os.ReadFile(filepath.Join(box.WS(), "b/app.in"))
+		appTxt, err2 := os.ReadFile(filepath.Join(box.WS(), "b/dist/app.txt"))
+		if err1 == nil && err2 == nil && len(libTxt) > 0 {
+			if want := "app[" + string(appIn) + "|" + string(libTxt) + "|" + string(libTxt) + "]"; string(appTxt) != want {
+				res.selfCheck = fmt.Sprintf("a from-scratch build leaves b/dist/app.txt = %q, but //b:app writes app[<app.in>|<$(output //a:lib 0)>|<../a/out/lib.txt>] = %q: its command did not see the dependency's output", appTxt, want)
+			}
+			for _, r := range res.reads {
+				if strings.HasPrefix(r, "read //b:top ") && !strings.Contains(r, "dist/app.txt="+string(appTxt)+" ") {
+					res.selfCheck = fmt.Sprintf("a from-scratch build: //b:top observed %q but b/dist/app.txt is %q", r, appTxt)
+				}
+			}
 		}
 	}
 	e.cleanMu.Lock()
@@ -299,6 +321,10 @@ func (e *histEngine) doBuild(j *buildJob) {
 		}
 		executed[l] = true
 	}
+	if os.Getenv("VERIF_DEBUG") != "" {
+		appTxt, _ := os.ReadFile(filepath.Join(box.WS(), "b/dist/app.txt"))
+		vc.Logf("DEBUG hist %v (%s) exit=%d executed=%v app.txt=%q grog=%s", histNow, f.LoadOutputs, rr.Exit, rr.Started(), appTxt, e.grog)
+	}
 	sel := map[string]bool{}
 	for _, l := range order {
 		sel[l] = true
@@ -339,6 +365,9 @@ func (e *histEngine) doBuild(j *buildJob) {
 			model[k] = true
 		}
 		// differential oracle: outputs equal a from-scratch build of the current sources
+		if cl.selfCheck != "" {
+			vio("C01:from-scratch-build-wrong:dependency-output-not-seen-by-command", "%s", cl.selfCheck)
+		}
 		if cl.exit != 0 {
 			e.c.R.BrokenCheck("clean build of source state %v fails (exit %d): %s", p.ws.describe(), cl.exit, tail(cl.output, 400))
 		} else {
@@ -349,6 +378,9 @@ func (e *histEngine) doBuild(j *buildJob) {
 					// minimal mode does not promise to materialise outputs of restored targets
 					// (what an executed dependant reads is checked through the read lines)
 					continue
+				}
+				if os.Getenv("VERIF_DEBUG") != "" {
+					vc.Logf("DEBUG diff %v %s: %q (clean has %d entries, got %d)", histNow, l, hist.DiffListing(got, cl.listings[l]), len(cl.listings[l]), len(got))
 				}
 				if d := hist.DiffListing(got, cl.listings[l]); d != "" {
 					vio("C01:output-differs-from-clean-build:"+l+":after:"+last, "declared outputs of %s differ from a from-scratch build: %s", l, d)
@@ -404,11 +436,19 @@ func (e *histEngine) run() {
 	seen := map[string]bool{start.key(): true}
 	frontier := []*hnode{start}
 	states := int64(1)
-	for depth := 0; depth < e.maxOps && len(frontier) > 0; depth++ {
+	maxOps := e.maxOps
+	if e.prebuilt {
+		maxOps++
+	}
+	for depth := 0; depth < maxOps && len(frontier) > 0; depth++ {
 		var next []*hnode
 		var jobs []*buildJob
 		for _, n := range frontier {
-			remaining := e.maxOps - depth
+			remaining := maxOps - depth
+			if depth == 0 && e.prebuilt {
+				jobs = append(jobs, &buildJob{parent: n, flags: e.flags[0]})
+				continue
+			}
 			if remaining >= 2 { // an edit is only useful if a build can follow
 				for _, tg := range e.toggles {
 					ws := n.ws
@@ -530,12 +570,19 @@ func histCheck(prop string, keep []string, quickOps, thoroughOps int, configure 
 
 func init() {
 	Registry["C01"] = func(c *Ctx) {
-		c.R.Rule = "explicit-state breadth-first search over build histories: a state is (source toggles, workspace outputs, abstract cache content); operations = 13 source edits (append byte, move a byte from the end of one input to the start of the next, add/rename file under a glob, command change with/without output change, declared outputs, fingerprint value, fingerprint '=' shift, alias edge <-> direct edge, inputs of two other targets, platform), two workspace pre-state operations (a stale file inside a directory output, a tampered file output) and `grog build //...` / `grog build //b:top` by the REAL binary on a cloned workspace+cache (every clone lives at a different absolute path); all histories of <= n operations with state de-duplication. After every build: exit 0, every declared output of every selected target equals a from-scratch build of the current sources (memoised per source state), and no target is served from cache whose state (per a reference dictionary model) has no successful result. Non-trivial = a build with at least one cache hit and one execution."
+		c.R.Rule = "explicit-state breadth-first search over build histories: a state is (source toggles, workspace outputs, abstract cache content); operations = 13 source edits (append byte, move a byte from the end of one input to the start of the next, add/rename file under a glob, command change with/without output change, declared outputs, fingerprint value, fingerprint '=' shift, alias edge <-> direct edge, inputs of two other targets, platform), two workspace pre-state operations (a stale file inside a directory output, a tampered file output) and `grog build //...` / `grog build //b:top` by the REAL binary on a cloned workspace+cache (every clone lives at a different absolute path); all histories of <= n operations with state de-duplication (quick: additionally all histories of <= n further operations after a first `build //...`, i.e. one operation deeper from the built state). After every build: exit 0, every declared output of every selected target equals a from-scratch build of the current sources (memoised per source state; the from-scratch build itself is checked against an absolute oracle: //b:app's output embeds the bytes of //a:lib's output, read both through $(output ...) and by path, and //b:top observed exactly that file), and no target is served from cache whose state (per a reference dictionary model) has no successful result. Non-trivial = a build with at least one cache hit and one execution."
 		c.R.Assume("commands of the model workspace are deterministic functions of their declared inputs and dependency outputs", "the reference cache model keys on (label, command, declared outputs, fingerprint, platform, input path+content, observed dependency output contents)", "histories longer than the bound and workspaces other than the 6-target model workspace are not covered")
 		histCheck("C01", []string{"C01:", "C04:build-hangs"}, 3, 5, func(e *histEngine, thorough bool) {
 			// restores happen over whatever the workspace holds: a polluted directory output and a tampered file output
 			e.preOps = []string{"add-stale-file-to-dist", "modify-lib-output"}
 		})(c)
+		if !c.Thorough {
+			// quick: one operation deeper from the state after a first `build //...`
+			histCheck("C01", []string{"C01:", "C04:build-hangs"}, 3, 5, func(e *histEngine, thorough bool) {
+				e.prebuilt = true
+				e.preOps = []string{"add-stale-file-to-dist", "modify-lib-output"}
+			})(c)
+		}
 	}
 	Registry["C02"] = func(c *Ctx) {
 		c.R.Rule = "the C01 history search extended with workspace pre-state operations on output paths between builds (delete output, delete its parent directory, modify, truncate, delete a directory output, replace a file output by a directory, add a stale file to a directory output, clear an exec bit); after every build the set of executed commands (trace written by the commands themselves) must EQUAL the set predicted by the reference cache model: nothing on a no-op rebuild, only targets whose state has no cached result otherwise; dependants of a target that reproduces identical outputs are restored (early cut-off); every clone of the workspace lives at a different absolute path. Thorough additionally runs sha256 and load_outputs=minimal universes."
@@ -549,6 +596,13 @@ func init() {
 				e.flags = append(e.flags, buildFlags{Pattern: "//...", HashAlgo: "sha256"}, buildFlags{Pattern: "//...", LoadOutputs: "minimal"})
 			}
 		})(c)
+		if !c.Thorough {
+			// quick: one operation deeper from the state after a first `build //...`
+			histCheck("C02", []string{"C02:"}, 3, 4, func(e *histEngine, thorough bool) {
+				e.prebuilt = true
+				e.preOps = preOpNames
+			})(c)
+		}
 	}
 }
 
@@ -567,6 +621,12 @@ func init() {
 			if thorough {
 				e.ops = append(e.ops, opBuildNoC, markOp("fail-y-exit"))
 			}
+		})(c)
+		// from the state after a first build: one operation deeper (dependency cached, dependant has to run, dependency output absent / stale)
+		defer histCheck("C15", []string{"C15:"}, 3, 4, func(e *histEngine, thorough bool) {
+			e.prebuilt = true
+			e.preOps = []string{"delete-lib-output", "delete-dist-dir", "modify-lib-output", "chmod-minus-x-tool"}
+			e.flags = []buildFlags{{Pattern: "//...", LoadOutputs: "minimal"}, {Pattern: "//b:top", LoadOutputs: "minimal"}}
 		})(c)
 		histCheck("C15", []string{"C15:"}, 3, 4, func(e *histEngine, thorough bool) {
 			e.preOps = []string{"delete-lib-output", "delete-dist-dir", "modify-lib-output", "chmod-minus-x-tool"}
